@@ -52,12 +52,9 @@ class RemoveContract(Contract):
         if not isinstance(start, int) or not (end is None or isinstance(end, int)):
             return
         a, b = norm_range(start, end, n)
-        if isinstance(settings, int) and not isinstance(settings, bool) and settings == 0:
-            ctx.grey('bare-int-0-as-settings')
-            return
         if settings is None:
             G = None
-        elif not settings:
+        elif not settings and not (isinstance(settings, int) and not isinstance(settings, bool)):
             G = []
         else:
             G = settings_texts(L, ctx.mon, settings)
@@ -68,7 +65,8 @@ class RemoveContract(Contract):
         if p.text != o.text:
             ctx.violation('text-changed', det, call, mech='remove-text')
             return
-        noop_declared = (b <= a) or (settings is not None and not settings)
+        is_int = isinstance(settings, int) and not isinstance(settings, bool)
+        noop_declared = (b <= a) or (settings is not None and not settings and not is_int)
         if noop_declared:
             ctx.sig('noop')
             same = O.first_diff_exact(o.texts, p.texts) is None
